@@ -47,7 +47,26 @@ type caseC11 struct {
 func drawC11(t *rapid.T) caseC11 {
 	var c caseC11
 	c.Fmt = rapid.SampledFrom([]string{"xz", "xz", "lzma", "lzma2"}).Draw(t, "fmt")
-	c.Mode = rapid.SampledFrom([]string{"mutate", "mutate", "mutate", "mutate", "mutate", "mutate", "random", "magic"}).Draw(t, "mode")
+	c.Mode = rapid.SampledFrom([]string{"mutate", "mutate", "mutate", "mutate", "mutate", "mutate", "random", "magic", "absurd"}).Draw(t, "mode")
+	if c.Mode == "absurd" {
+		// a generator-built xz stream whose block header sizes, index count,
+		// index records or backward size are replaced by hostile values
+		// (0, 1, 2^31, 2^32, 2^62, 2^63-1, 2^63, 2^64-1 ...) with every CRC32
+		// correct: the values reach the size arithmetic of the reader
+		c.Fmt = "xz"
+		s := gen.DrawSrc(t, "xz", 3000, "ref")
+		cheapDict(&s)
+		if s.NBlocks == 0 {
+			s.NBlocks = 2
+		}
+		for i, n := 0, rapid.IntRange(1, 2).Draw(t, "nlies"); i < n; i++ {
+			s.Lies = append(s.Lies, gen.Lie{F: rapid.SampledFrom([]string{"csize", "usize", "usize", "count", "rec_unpadded", "rec_usize", "backward"}).Draw(t, "lief"),
+				Blk: rapid.IntRange(0, s.NBlocks-1).Draw(t, "lieblk"), V: rapid.SampledFrom(gen.HostileValues).Draw(t, "liev")})
+		}
+		c.Src = &s
+		c.Reads = []int{rapid.SampledFrom([]int{1, 7, 4096, 65536}).Draw(t, "readlen")}
+		return c
+	}
 	c.Reads = []int{rapid.SampledFrom([]int{1, 7, 4096, 65536}).Draw(t, "readlen")}
 	switch c.Mode {
 	case "random":
@@ -221,6 +240,9 @@ func (c caseC11) input(rec *ev.Rec) ([]byte, bool) {
 		gen.NewPRNG(c.Seed).Fill(tail)
 		return append(append([]byte{}, b.Stream[:keep]...), tail...), true
 	}
+	if c.Mode == "absurd" {
+		return b.Stream, true
+	}
 	lay, _ := layoutOf(c.Fmt, b)
 	d := applyMuts(b.Stream, c.Muts, lay)
 	if c.Reseal && lay != nil {
@@ -279,7 +301,7 @@ func checkC11(c caseC11, rec *ev.Rec) *ev.Failure {
 
 func TestC11(t *testing.T) {
 	rec := ev.New("C11", "exploration")
-	rec.Rule = "rapid builds hostile inputs for the xz, LZMA and LZMA2 readers: 1-8 stacked mutations (bit flip, byte set, insert, delete, truncate, duplicate range, fill, structural-field hit) of valid streams from all origins, for xz half of them restricted to in-place mutations with every header CRC32 (stream header, block headers following a mutated size byte, index, footer) re-sealed so that the input passes the CRC gates; purely random strings; valid prefix + random tail; read with buffer lengths 1/7/4096/65536; oracle inside the target: no panic, 0 <= n <= len(p), no 1000 consecutive (0,nil) without input consumption, return within the (10x re-checked) watchdog; thorough adds native coverage-guided fuzzing of the same target; non-trivial = input gets past the magic check or is not xz (histogram of outcomes = depth reached); distinct = hash of the input bytes"
+	rec.Rule = "rapid builds hostile inputs for the xz, LZMA and LZMA2 readers: 1-8 stacked mutations (bit flip, byte set, insert, delete, truncate, duplicate range, fill, structural-field hit) of valid streams from all origins, for xz half of them restricted to in-place mutations with every header CRC32 (stream header, block headers following a mutated size byte, index, footer) re-sealed so that the input passes the CRC gates; purely random strings; valid prefix + random tail; generator-built xz streams with CRC-valid absurd metadata (block header sizes, index count and records, backward size set to 0, 1, 2^31, 2^32, 2^62, 2^63-1, 2^63, 2^64-1 ...); read with buffer lengths 1/7/4096/65536; oracle inside the target: no panic, 0 <= n <= len(p), no 1000 consecutive (0,nil) without input consumption, return within the (10x re-checked) watchdog; thorough adds native coverage-guided fuzzing of the same target; non-trivial = input gets past the magic check or is not xz (histogram of outcomes = depth reached); distinct = hash of the input bytes"
 	rec.Assumptions = []string{"inputs that may declare a dictionary above 64 MiB are excluded (xz: any occurrence of 21 01 cc with cc in 29..40; lzma: header field) and counted", "reading stops after 8 MiB (quick) / 64 MiB (thorough) of output", "errors are the contract for invalid input: only panics, stalls and n > len(p) are violations"}
 	drive(t, rec, drawC11, checkC11)
 }
